@@ -428,6 +428,18 @@ def rule_tables(c: Ctx) -> RuleResult:
               f"{f_short} emits {[ts.kinds for ts in mine]} instead of text_special: the literal character becomes ordinary text and is "
               f"open to the typographic replacements")
         # content is assigned from the escaped character / decoded entity
+        # the decoded character must not flow into state.pending (which becomes plain `text`, open to the typographer)
+        pend = []
+        for g in sorted(_reach_nd(c, f), key=lambda x: x.qual):
+            for s_ in own_nodes(g.node):
+                tg = s_.targets if isinstance(s_, ast.Assign) else ([s_.target] if isinstance(s_, (ast.AugAssign, ast.AnnAssign)) else [])
+                for t in tg:
+                    if isinstance(t, ast.Attribute) and t.attr == "pending" and c.tf.scope(g).type(t.value) == "StateInline" and g.name != "pushPending":
+                        pend.append((g, s_))
+        r.add(f"producer|{f_short}|pending", c.where(pend[0][0], pend[0][1]) if pend else c.where(f, f.node), f.short,
+              U(pend[0][1])[:70] if pend else "state.pending", "violation" if pend else "discharged",
+              f"{f_short} writes state.pending: a character written as an escape / entity becomes ordinary text and is open to the "
+              f"typographic replacements" if pend else "nothing reachable from the rule writes state.pending")
         cont = [s for s in own_nodes(f.node) if isinstance(s, ast.Assign) and any(isinstance(t, ast.Attribute) and t.attr == "content" for t in s.targets)]
         okc = bool(cont)
         r.add(f"producer|{f_short}|content", c.where(f, cont[0] if cont else f.node), f.short, U(cont[0])[:80] if cont else "-",
@@ -435,6 +447,20 @@ def rule_tables(c: Ctx) -> RuleResult:
               "the token carries the literal as content" if okc else f"{f_short} pushes the placeholder without content: the character is dropped")
     r.floor = 8
     return r
+
+
+def _reach_nd(c: Ctx, f: Func) -> set[Func]:
+    seen: set[Func] = set()
+    stack = [f]
+    while stack:
+        g = stack.pop()
+        if g in seen:
+            continue
+        seen.add(g)
+        for cs in c.cg.sites.get(g, []):
+            if not cs.kind.startswith("dispatch:"):
+                stack.extend(x for x in cs.callees if x.name not in ("push", "pushPending"))
+    return seen
 
 
 def rule_accum(c: Ctx) -> RuleResult:
